@@ -1597,7 +1597,8 @@ pub mod verif {
         pub pass_idx: usize,
         /// digest of everything the next iteration of the pass loop depends on: symbol paths/types/values, the
         /// undefined set, the errors of this pass, the previous undefined set and previous errors, segment options,
-        /// final pcs, ranges and bytes, the current segment, the banks, and whether this pass added symbols
+        /// final pcs, ranges and bytes, the current segment, the banks, whether this pass added symbols, and the
+        /// set of symbols whose value changed in this pass
         pub digest: u64,
         /// digest of (symbol paths, types, values) only
         pub symbols_digest: u64,
@@ -1608,6 +1609,8 @@ pub mod verif {
         /// digest of the errors of this pass only
         pub errors_digest: u64,
         pub undefined: usize,
+        /// number of symbols that got another value during this pass (`ctx.changed`; the loop then runs another pass)
+        pub changed: usize,
         pub errors: usize,
         /// number of nodes in the symbol graph
         pub node_count: usize,
@@ -1706,6 +1709,7 @@ pub mod verif {
                     let segments_digest = h(&segment_entries(ctx));
                     let undefined_digest = h(&undefined_entries(&ctx.undefined));
                     let errors_digest = h(&error_entries(errors));
+                    let changed_digest = h(&undefined_entries(&ctx.changed));
                     let banks: Vec<(String, Option<usize>, Option<u8>, bool, Option<String>)> = ctx
                         .banks
                         .iter()
@@ -1721,6 +1725,7 @@ pub mod verif {
                         ctx.current_segment.as_ref().map(|s| s.to_string()),
                         banks,
                         symbols_added,
+                        changed_digest,
                     ));
                     let info = VerifPassInfo {
                         pass_idx: ctx.pass_idx,
@@ -1730,6 +1735,7 @@ pub mod verif {
                         undefined_digest,
                         errors_digest,
                         undefined: ctx.undefined.len(),
+                        changed: ctx.changed.len(),
                         errors: errors.len(),
                         node_count: ctx.symbols.node_count(),
                         symbols_added,
